@@ -4,7 +4,13 @@ Oracle: Python's own `format(text, spec)` is the text every styled output must r
 through the library's `descape` and through an independent SGR stripper; with colour disabled the
 output must be exactly that text.  `len(style)`/`visual_len` must be its length.  The repr round
 trip (`Style.from_raw(repr(s))`) is compared attribute by attribute with the attributes the case
-asked for.  Users: `FailedParse.render(color)`/`str(FailedParse)`/`str(ParseError)` must de-escape
+asked for.  A format specification given EXPLICITLY at the point of use (`format(s, spec)`, f-string, `str.format`,
+`s.apply(text, fmt=spec)`, `s(text, fmt=spec)`) is the specification of that output also when the style STORES a
+different one (`Style(..., fmt=)`, `.fmt()`, `template(text, fmt=)`): the output must reduce to
+`format(text, explicit spec)`.  Lineages: styles are also derived from one another in seeded walks of public
+builder calls with observations (len, truthiness, str, format, repr ...) taken on every style before the next is
+derived and on all of them again at the end; each style is judged against the attributes folded from the calls.
+Users: `FailedParse.render(color)`/`str(FailedParse)`/`str(ParseError)` must de-escape
 to their `Color.never()` / NO_COLOR rendering.  DESIGN.md section 3/C20.
 
 Histories: the users of styling are also driven as SEQUENCES inside one process that has rendered nothing
@@ -36,7 +42,17 @@ RULE = ('style cases = (unicode text without ESC drawn from ascii/brace/quote/la
         'the 8 modifiers, a format spec [fill][align][0][width][.precision][s] or none, colour policy in '
         '{always, never, enable(True/False), environment (NO_COLOR x FORCE_COLOR x tty)}, construction route in '
         '{kwargs, chained methods, Color.style, named methods}); every case is executed through str, apply, call, %s, '
-        "f-string, str.format, apply(fmt=), call(fmt=), format(), f'{s:{spec}}', '{:{}}'.format, len, repr/from_raw. "
+        "f-string, str.format, apply(fmt=), call(fmt=), format(), f'{s:{spec}}', '{:{}}'.format, len, repr/from_raw; "
+        'every case whose style stores a non-empty spec also carries a second, different non-empty spec that is given '
+        'explicitly to the storing style through format(), f-string, str.format, __format__, apply(fmt=) and '
+        'call(fmt=) and is judged against format(text, explicit spec). '
+        'lineage cases = a root Style(text[, fmt][, attributes]) followed by 2..6 builder calls drawn from {.fmt(spec), '
+        'style(text), style(text, fmt=spec), a modifier, .fg(c)/.fg_rgb, .bg(c)/.bg_rgb}; on each style, before the next '
+        'is derived, an ordered subset (0..4) of {len, bool, str, format, f-string, %s, repr, apply, value, '
+        'format(s, explicit spec), apply(text, fmt=explicit spec)} is taken, and at the end every style of the walk is '
+        'observed through len, bool, str, f-string, format(s, explicit spec), value; every observation is judged '
+        'against the attributes folded from the builder calls (signature prefix "lineage:" when the same style built '
+        'directly with the constructor passes the same observation). '
         'error cases = real parse failures of two compiled grammars on multi-line unicode sources (and ParseError '
         'family messages), rendered under every colour policy; markup cases = tag/text sequences. environment cases '
         'are repeated in child processes with real env vars and a real pty. non-trivial = an output that actually '
@@ -56,8 +72,15 @@ RULE = ('style cases = (unicode text without ESC drawn from ascii/brace/quote/la
         'so far, entry points, material)')
 ASSUMPTIONS = [
     "python's format(text, spec) is 'the text formatted by that specification'; specs it rejects are not cases",
-    'a style carrying its own fmt AND given a second spec (format(s.fmt(a), b)) is not an execution the statement '
-    'describes; each case carries exactly one spec',
+    'a style that stores a format spec and is given a different NON-EMPTY spec explicitly at the point of use '
+    '(format(s.fmt(a), b), f"{s:b}", s.apply(text, fmt=b), s(text, fmt=b)): "the text formatted by that '
+    'specification" is read as format(text, b), the specification of that output (what Style.__format__/apply/'
+    '__call__ do on the unchanged tree through every entry point); an EMPTY explicit spec (format(s), f"{s}") falls '
+    'back to the stored one',
+    'lineages: every modifier/colour/.fmt()/call returns a new style that differs from its parent only in what the call '
+    'names (Style docstring: "All modifier methods return a copy so styles are immutable and chainable"); the '
+    'expected attributes of a derived style are folded from the calls; truthiness and repr are taken for what they '
+    'may leave behind and are not judged in the walks',
     'the independent stripper removes exactly ESC [ (digit|;)* m; any other ESC in an output is reported as a '
     'malformed escape (texts and specs never contain ESC)',
     'repr round trip: text equality is required for texts without {}:\\\'" and without Cc characters; texts with '
@@ -93,6 +116,12 @@ FLOORS = {
               'history_tree_on_steps_after_other_policy_went_on_to_off': 9,
               'history_sampled_off_steps_after_other_policy_went_off_to_on': 30,
               'history_entry:render-fresh': 900, 'history_entry:trace': 300,
+              'override_outputs_checked': 150000, 'override_outputs_where_the_two_specs_give_different_texts': 150000,
+              'override_outputs_with_escapes': 70000,
+              'lineage_walks': 7000, 'lineage_observations_checked': 220000, 'lineage_len_checked': 32000,
+              'lineage_outputs_with_escapes': 50000, 'lineage_explicit_over_stored_spec_outputs': 24000,
+              'lineage_styles_derived_from_measured_parent_of_other_length': 3000,
+              'lineage_derived_from_measured_parent_of_other_length_by:fmt': 1700,
               'distinct_nontrivial': 27000},
     'thorough': {'outputs_checked': 6000000, 'outputs_with_escapes': 3000000, 'outputs_colour_off': 2800000,
                  'spec_outputs_with_escapes': 2700000, 'len_checked': 1100000, 'repr_attrs_compared': 1100000,
@@ -107,6 +136,13 @@ FLOORS = {
                  'history_tree_on_steps_after_other_policy_went_on_to_off': 24,
                  'history_sampled_off_steps_after_other_policy_went_off_to_on': 1500,
                  'history_entry:render-fresh': 18000, 'history_entry:trace': 5000,
+                 'override_outputs_checked': 4500000,
+                 'override_outputs_where_the_two_specs_give_different_texts': 4500000,
+                 'override_outputs_with_escapes': 2100000,
+                 'lineage_walks': 240000, 'lineage_observations_checked': 6500000, 'lineage_len_checked': 1000000,
+                 'lineage_outputs_with_escapes': 1600000, 'lineage_explicit_over_stored_spec_outputs': 750000,
+                 'lineage_styles_derived_from_measured_parent_of_other_length': 95000,
+                 'lineage_derived_from_measured_parent_of_other_length_by:fmt': 52000,
                  'distinct_nontrivial': 850000},
 }
 EXHAUSTIVE = {
@@ -122,6 +158,7 @@ SHARD_TIMEOUT = {'quick': 600, 'thorough': 3000}
 PEAK_COUNTERS = ('max_sgr_sequences',)
 
 N_STYLE = {'quick': 30000, 'thorough': 1000000}
+N_LINEAGE = {'quick': 8000, 'thorough': 250000}
 N_FAIL = {'quick': 3200, 'thorough': 100000}
 N_PERR = {'quick': 2400, 'thorough': 60000}
 N_MARKUP = {'quick': 2400, 'thorough': 60000}
@@ -136,7 +173,7 @@ FORMAT_ENTRIES = ('fstring', 'strformat', 'format', 'fstring-spec', 'format-meth
 def plan(tier, seed):
     k = SHARDS[tier]
     return [{'seed': seed, 'shard': i, 'of': k, 'tier': tier,
-             'n_style': N_STYLE[tier] // k, 'n_fail': N_FAIL[tier] // k, 'n_perr': N_PERR[tier] // k,
+             'n_style': N_STYLE[tier] // k, 'n_lineage': N_LINEAGE[tier] // k, 'n_fail': N_FAIL[tier] // k, 'n_perr': N_PERR[tier] // k,
              'n_markup': N_MARKUP[tier] // k, 'n_child': N_CHILD[tier], 'child_styles': CHILD_STYLES[tier],
              'n_hist': N_HIST[tier] // k}
             for i in range(k)]
@@ -326,10 +363,168 @@ def check_style(acc, case, obs, origin, enabled=None):
             acc.violation('value/altered', f'style.value = {value!r} / str value {raw!r} for text {case["text"]!r}',
                           {'kind': 'style', 'case': case, 'entry': 'value:' + name, 'origin': origin})
     check_roundtrip(acc, case, obs, origin)
+    check_override(acc, case, obs, enabled, origin)
     if obs.get('_escaped_ok'):
         acc.count('cases_nontrivial')
         acc.nontriv('style', case['text'], case['fg'], case['bg'], case['mods'], case['spec'], case['mode'],
                     case.get('env'), case['route'])
+
+
+def output_verdict(want, out, enabled):
+    """None, or (kind, detail) when the output `out` is not the text `want` with (colour enabled) or without
+    (colour disabled) SGR sequences around it"""
+    from tatsu.util.tty import descape, visual_len
+    if not enabled:
+        if M.ESC in out:
+            return 'leak', 'escape sequence although colour is disabled'
+        if out != want:
+            return 'text', 'colour disabled but output is not the formatted text'
+    try:
+        got = descape(out)
+    except Exception as e:  # noqa: BLE001
+        return 'exception:descape', f'descape raised {type(e).__name__}: {e}'
+    mine, _n = M.strip_sgr(out)
+    if got != want:
+        return 'text', f'descape(output) = {got!r}'
+    if mine is None:
+        return 'malformed', 'an ESC in the output does not start an SGR sequence'
+    if mine != want:
+        return 'text', f'independent strip gives {mine!r}'
+    try:
+        vl = visual_len(out)
+    except Exception as e:  # noqa: BLE001
+        return 'exception:visual_len', f'visual_len raised {type(e).__name__}: {e}'
+    if vl != len(want):
+        return 'len', f'visual_len(output) = {vl}, len(text) = {len(want)}'
+    return None
+
+
+def explicit_verdict(text, stored, explicit, out, err, enabled):
+    """a style that stores the spec `stored` (or none) was given the non-empty spec `explicit` at the point of use:
+    the output must be format(text, explicit); (signature, detail) or None"""
+    onoff = 'on' if enabled else 'off'
+    if err is not None:
+        return 'override/exception:' + err.split(':')[0].split(' ')[0], f'raised/returned {err}'
+    want = format(text, explicit)
+    v = output_verdict(want, out, enabled)
+    if v is None:
+        return None
+    if stored:
+        mine, _n = M.strip_sgr(out)
+        if mine is not None and mine == format(text, stored) != want:
+            return 'override:stored-spec-used', v[1]
+    return f'override/{onoff}/{v[0]}', v[1]
+
+
+def check_override(acc, case, obs, enabled, origin):
+    """stored spec + a different explicit spec: the explicit one decides the text"""
+    text, spec, spec2 = case['text'], case['spec'], case.get('spec2')
+    over = obs.get('over') or []
+    if not over:
+        return
+    want = format(text, spec2)
+    acc.count('cases_with_stored_and_explicit_spec')
+    differ = want != format(text, spec)
+    for entry, out, err in over:
+        acc.evaluations += 1
+        acc.count('override_outputs_checked')
+        acc.count('entry:' + entry)
+        if differ:
+            acc.count('override_outputs_where_the_two_specs_give_different_texts')
+        v = explicit_verdict(text, spec, spec2, out, err, enabled)
+        if v is not None:
+            acc.violation(v[0], f'{entry} of text {text!r} on a style storing spec {spec!r} with the explicit spec '
+                                f'{spec2!r} (colour {"on" if enabled else "off"}, {case["mode"]}): {v[1]}; output '
+                                f'{out!r}, oracle text {want!r}',
+                          {'kind': 'style', 'case': case, 'entry': entry, 'origin': origin})
+        elif M.ESC in out:
+            acc.count('override_outputs_with_escapes')
+            obs['_escaped_ok'] = obs.get('_escaped_ok', 0) + 1
+
+
+# ------------------------------------------------------------------------------- oracle: lineages
+
+def lineage_verdict(a, ob, res, err, enabled):
+    """one observation on a style whose folded attributes are `a`: None or (signature, detail)"""
+    name = ob[0]
+    if name in ('formatx', 'applyx'):
+        return explicit_verdict(a['text'], a['spec'], ob[1], res, err, enabled)
+    if err is not None:
+        return f'{name}/exception:' + err.split(':')[0].split(' ')[0], f'raised/returned {err}'
+    want = expected_text(a)
+    if name == 'len':
+        if res != len(want):
+            return 'len/value', f'len(style) = {res} but the formatted text {want!r} has length {len(want)}'
+        return None
+    if name == 'value':
+        return None if res == a['text'] else ('value/altered', f'style.value = {res!r}')
+    if name in ('bool', 'repr'):
+        return None             # taken for what they may leave behind; repr is judged in the style cases
+    v = output_verdict(want, res, enabled)
+    if v is None:
+        return None
+    group = 'format' if name in ('format', 'fstring') else name
+    return f'{group}/{"on" if enabled else "off"}/{v[0]}', f'{v[1]}; output {res!r}, oracle text {want!r}'
+
+
+def ops_text(walk, j):
+    return '>'.join(op[0] for op in walk['steps'][:j]) or 'constructor'
+
+
+def check_lineage(acc, walk, obs, origin):
+    folded = M.fold_lineage(walk)
+    enabled = M.expected_enabled(walk)
+    wit = {'kind': 'lineage', 'walk': walk, 'origin': origin}
+    acc.count('lineage_walks')
+    acc.count(f'lineage_walks_len:{len(walk["steps"])}')
+    acc.count('mode:' + walk['mode'])
+    for op in walk['steps']:
+        acc.count('lineage_op:' + op[0])
+    wants = [len(expected_text(a)) for a in folded]
+    measured = [any(ob[0] in ('len', 'bool') for ob in walk['obs'][j]) for j in range(len(folded))]
+    escaped = False
+    for j, a in enumerate(folded):
+        acc.count('lineage_styles')
+        nb = len(walk['obs'][j])
+        after_measured = j > 0 and measured[j - 1] and wants[j] != wants[j - 1]
+        if after_measured:
+            acc.count('lineage_styles_derived_from_measured_parent_of_other_length')
+            acc.count('lineage_derived_from_measured_parent_of_other_length_by:' + walk['steps'][j - 1][0])
+        for phase, seq, off in (('before the next style is derived', obs['before'][j], 0),
+                                ('at the end of the walk', obs['end'][j], nb)):
+            for k, (ob, res, err) in enumerate(seq):
+                acc.evaluations += 1
+                acc.count('lineage_observations_checked')
+                acc.count('lineage_obs:' + ob[0])
+                if ob[0] == 'len':
+                    acc.count('lineage_len_checked')
+                elif ob[0] in ('formatx', 'applyx'):
+                    acc.count('lineage_explicit_spec_outputs')
+                    if a['spec'] and format(a['text'], a['spec']) != format(a['text'], ob[1]):
+                        acc.count('lineage_explicit_over_stored_spec_outputs')
+                v = lineage_verdict(a, ob, res, err, enabled)
+                if v is None:
+                    if isinstance(res, str) and M.ESC in res and ob[0] != 'repr':
+                        acc.count('lineage_outputs_with_escapes')
+                        escaped = True
+                    continue
+                dob, dres, derr = obs['direct'][j][off + k]
+                same = lineage_verdict(a, dob, dres, derr, enabled) is not None
+                sig = v[0] if same else 'lineage:' + v[0]
+                tail = 'the same style built directly shows it too' if same else \
+                    'the same style built directly does not show this'
+                acc.violation(sig, f'after {ops_text(walk, j)} ({phase}; observations taken on this style before '
+                                   f'that: {[o[0] for o in walk["obs"][j]]}, on its parent: '
+                                   f'{[o[0] for o in walk["obs"][j - 1]] if j else None}): {ob} on text {a["text"]!r} '
+                                   f'spec {a["spec"]!r}, colour {walk["mode"]}: {v[1]} [{tail}]', wit)
+    if escaped:
+        acc.nontriv('lineage', walk['text'], walk['spec'], walk['mode'], walk.get('env'), walk['steps'], walk['obs'])
+
+
+def run_lineage(acc, walk, origin):
+    obs = M.observe_lineage(walk)
+    check_lineage(acc, walk, obs, origin)
+    return obs
 
 
 # ------------------------------------------------------------------------------- oracle: renderings
@@ -508,6 +703,12 @@ def run_shard(desc, acc):
         obs = run_style_case(acc, case, {'shard': shard, 'i': i})
         if i == 0:
             acc.sample({'case': case, 'outputs': obs['outs'][:4], 'repr': obs['repr'].get('ctor', {}).get('repr')})
+    for i in range(desc.get('n_lineage', 0)):
+        rng = random.Random(h64(ID, seed, shard, 'lineage', i))
+        walk = M.gen_lineage(rng)
+        obs = run_lineage(acc, walk, {'shard': shard, 'i': i})
+        if i == 0:
+            acc.sample({'lineage': walk, 'end': obs['end'][-1][:3]})
     for i in range(desc['n_fail']):
         rng = random.Random(h64(ID, seed, shard, 'fail', i))
         gi = rng.randrange(len(M.GRAMMARS))
@@ -992,6 +1193,8 @@ def replay(w, acc):
     kind = w.get('kind')
     if kind == 'style':
         run_style_case(acc, w['case'], {'mode': 'replay'})
+    elif kind == 'lineage':
+        run_lineage(acc, w['walk'], {'mode': 'replay'})
     elif kind == 'failure':
         f = w['f']
         envs = w.get('envs') or []
@@ -1031,7 +1234,9 @@ MANIFEST = {
     'level_text': 'every seeded (text, attributes, spec, colour policy, construction route) case is executed through all '
                   'documented entry points of the real Style and each output is reduced with the library descape and an '
                   'independent stripper and compared with format(text, spec); len/visual_len, colour-off exactness and '
-                  'the repr/from_raw round trip are checked per case; real parse failures and ParseError messages are '
+                  'the repr/from_raw round trip are checked per case; a stored spec is overridden by a different explicit one '
+                  'through every explicit-spec entry point; seeded lineages of builder calls with interleaved '
+                  'observations are judged style by style against the folded attributes; real parse failures and ParseError messages are '
                   'rendered under every policy and compared with their colourless rendering; histories of render operations '
                   'and colour-policy changes inside one not-yet-rendering process are enumerated as a tree up to length 3 '
                   '(each node in its own forked copy) and sampled beyond, every step judged by the policy state the '
